@@ -4,6 +4,6 @@ set -e
 cd "$(dirname "$0")/.."
 mkdir -p build evidence
 python3 tools/extract.py
-(cd lean && lake build Kitoken kdriver)
+(cd lean && lake build Kitoken kdriver Kitoken.All)
 (cd harness && CARGO_NET_OFFLINE=true cargo build --offline)
 echo "setup: ok"
